@@ -375,11 +375,16 @@ class XRayTransform3D(LinearOperator):
         HTy = jnp.zeros(input_shape, dtype=proj.dtype)
         for view_ind, matrix in enumerate(matrices):
             for slice_offset in slice_offsets:
+                HTy_slab = HTy[slice_offset : slice_offset + MAX_SLICE_LEN]
+                if len(slice_offsets) == 1:
+                    # the slab is all of HTy: slicing does not copy, and the
+                    # buffer donated to _back_project_single would be HTy itself
+                    HTy_slab = jnp.array(HTy_slab, copy=True)
                 HTy = HTy.at[slice_offset : slice_offset + MAX_SLICE_LEN].set(
                     XRayTransform3D._back_project_single(
                         proj[view_ind],
                         matrix,
-                        HTy[slice_offset : slice_offset + MAX_SLICE_LEN],
+                        HTy_slab,
                         slice_offset=slice_offset,
                     )
                 )
